@@ -118,6 +118,8 @@ func editCatalogue() []editClass {
 	entP("serial-set", func(r *Rng, t *EntitySpec) { t.Serial = 0 }, func(r *Rng, n *EntitySpec) { n.Serial = 1 + r.I64n(1<<50) })
 	entP("serial-change", func(r *Rng, t *EntitySpec) { t.Serial = 77 }, func(r *Rng, n *EntitySpec) { n.Serial = 78 })
 	entP("serial-high-bits", func(r *Rng, t *EntitySpec) { t.Serial = 1 + r.I64n(1000) }, func(r *Rng, n *EntitySpec) { n.Serial += Pick(r, []int64{1 << 8, 1 << 16, 1 << 31, 1 << 32, 1 << 40}) })
+	entP("serial-above-2^53-low-bits", func(r *Rng, t *EntitySpec) { t.Serial = (1 << 62) + r.I64n(1<<20)*2048 }, func(r *Rng, n *EntitySpec) { n.Serial += Pick(r, []int64{1, 2, 3, 100}) })
+	entP("subject-binary-vs-text", func(r *Rng, t *EntitySpec) { t.Subject = append([]RDN{{"O", "AQID"}}, t.Subject...) }, func(r *Rng, n *EntitySpec) { n.Subject[0].V = "#010203" })
 	ent("subject-case-only", func(r *Rng, t, n *EntitySpec) {
 		n.Subject[len(n.Subject)-1].V = toggleCase(n.Subject[len(n.Subject)-1].V)
 	})
